@@ -27,6 +27,13 @@ MAX_STORED_PER_KEY = 3          # violation witnesses kept per (oracle, mech)
 NOVALUE = object()
 
 
+def out_dir(kind):
+    """evidence/ and replays/ live in /verif; the mutation self-test redirects them
+    (VERIF_OUT) so that runs against mutated scratch copies never touch real evidence."""
+    base = os.environ.get('VERIF_OUT')
+    return os.path.join(base, kind) if base else os.path.join(VERIF, kind)
+
+
 def repo_path():
     return os.path.abspath(os.environ.get('VERIF_REPO', '/repo'))
 
@@ -191,14 +198,17 @@ class Ctx:
         d = np.where(same_inf, 0.0, d)
         return float(np.max(d))
 
-    def close(self, oracle, got, want, tol, mech=None, scale=None, **detail):
+    def close(self, oracle, _got, _want, tol, mech=None, scale=None, **detail):
+        got, want = _got, _want
         e = self.err(got, want, scale)
         if e <= tol:
             if e > self.max_err.get(oracle, 0.0):
                 self.max_err[oracle] = e
             self.oracle_evals[oracle] += 1
             return True
-        return self.fail(oracle, mech, got=got, want=want, err=e, tol=tol, **detail)
+        detail.setdefault('got', got)
+        detail.setdefault('want', want)
+        return self.fail(oracle, mech, err=e, tol=tol, **detail)
 
     def call(self, oracle, mech, fn, *a, **k):
         """Call into pMuTT; an exception is a violation of `oracle` (no value was
@@ -413,8 +423,8 @@ def run_check(prop_id, tier, seed, nshards=None):
     mod = load_prop(prop_id)
     t0 = time.time()
     nshards = nshards or int(os.environ.get('VERIF_SHARDS', '16'))
-    os.makedirs(os.path.join(VERIF, 'evidence'), exist_ok=True)
-    os.makedirs(os.path.join(VERIF, 'replays'), exist_ok=True)
+    os.makedirs(out_dir('evidence'), exist_ok=True)
+    os.makedirs(out_dir('replays'), exist_ok=True)
     env = dict(os.environ)
     env['PYTHONHASHSEED'] = '0'
     env['MPLBACKEND'] = 'Agg'
@@ -500,7 +510,7 @@ def finish(mod, prop_id, tier, seed, m, problems, wall):
         inconclusive.append('fewer than 2 distinct non-trivial cases')
     soft_inc = {k: n for k, n in m['inconclusive'].items() if not k.startswith('harness:')}
     # replays ---------------------------------------------------------------
-    rdir = os.path.join(VERIF, 'replays')
+    rdir = out_dir('replays')
     viol_paths = []
     for k, n, recs in sorted(unlisted, key=lambda t: t[0]):
         if not recs:
@@ -549,7 +559,7 @@ def finish(mod, prop_id, tier, seed, m, problems, wall):
     }
     if getattr(mod, 'EXHAUSTIVE', False):
         ev['coverage']['exhaustive'] = True
-    with open(os.path.join(VERIF, 'evidence', '%s.json' % prop_id), 'w') as f:
+    with open(os.path.join(out_dir('evidence'), '%s.json' % prop_id), 'w') as f:
         json.dump(ev, f, indent=1, default=repr)
     # report ----------------------------------------------------------------
     print('%s tier=%s seed=%s cases=%d nontrivial=%d wall=%.1fs' % (
@@ -569,10 +579,12 @@ def finish(mod, prop_id, tier, seed, m, problems, wall):
             json.dumps(rec['detail'], default=repr)[:400]))
         print('VIOLATION property=%s replay=%s' % (prop_id, path))
     if viol_paths:
+        for r in inconclusive:
+            print('  (also inconclusive: %s)' % str(r)[:600])
         return 1
     if inconclusive:
         for r in inconclusive:
-            print('INCONCLUSIVE property=%s reason=%s' % (prop_id, str(r)[:600]))
+            print('INCONCLUSIVE property=%s reason=%s' % (prop_id, str(r)[:1500]))
         return 2
     print('HELD property=%s on everything explored' % prop_id)
     return 0
